@@ -678,3 +678,38 @@ func (c *Ctx) tokenSlotFullyRewritten(rule string, pk *packages.Package) {
 	}
 	c.R.Floor(rule, "token fields assigned by read", n, 3)
 }
+
+// tokenTraitsFromOwnEntry (R17.tokentraits, second clause): a token's traits are the table entry of its own name.
+func (c *Ctx) tokenTraitsFromOwnEntry(rule string, pk *packages.Package) {
+	fd := c.fn(rule, pk, "TokenBuffer.read")
+	if fd == nil {
+		return
+	}
+	tok := fd.Type.Params.List[0].Names[0].Name
+	n := 0
+	ast.Inspect(fd.Body, func(x ast.Node) bool {
+		as, ok := x.(*ast.AssignStmt)
+		if !ok {
+			return true
+		}
+		for i, l := range as.Lhs {
+			ls := nospace(str(l))
+			if i >= len(as.Rhs) {
+				continue
+			}
+			rs := nospace(str(as.Rhs[i]))
+			switch ls {
+			case tok + ".Traits":
+				n++
+				good := rs == "0" || rs == "attrMap["+tok+".Hash]" || rs == "tagMap["+tok+".Hash]"
+				c.R.Check(good, rule, fmt.Sprintf("%s.TokenBuffer.read/%s.Traits = %s is the entry of the token's own name", pk.Name, tok, rs), c.pos(as), "attrMap / tagMap indexed by the token's Hash", "the traits are taken from "+rs+", not from the table entry of the token's own name: an attribute (`data-selected`, `data-href`) is treated as the boolean or URL attribute whose name it merely contains — `<option data-selected=\"false\">` → `<option data-selected>`")
+			case tok + ".Hash":
+				n++
+				good := rs == "0" || rs == "ToHash("+tok+".Text)"
+				c.R.Check(good, rule, fmt.Sprintf("%s.TokenBuffer.read/%s.Hash = %s is the hash of the token's own name", pk.Name, tok, rs), c.pos(as), "ToHash of the token's text", "the hash is computed from "+rs+" instead of the token's whole name: every table look-up for this token answers for another name")
+			}
+		}
+		return true
+	})
+	c.R.Floor(rule, "assignments of Traits and Hash in read", n, 4)
+}
